@@ -362,7 +362,33 @@ pub fn c09(j: &mut Judge, v: &StepView) {
                 }
             }
         }
-        Req::Match { bid_id, .. } => {
+        Req::Match { ask_id, bid_id, .. } => {
+            // the ask fee at the configured rate, whatever the verdict on the request: when the
+            // ask-fee account is no other party of the match its receipt is exactly that fee
+            if let (Some((fee, Some(acc))), Some(a), Some(b), Some(cfg)) =
+                (&v.exp.expected_ask_fee, v.before.asks.get(ask_id), v.before.bids.get(bid_id), &v.before.cfg)
+            {
+                let seller = match &a.class {
+                    AskClass::Ready { approver, .. } => approver.clone(),
+                    _ => a.owner.clone(),
+                };
+                let bid_fee_acc = cfg.bid_fee.as_ref().map(|f| f.0.clone());
+                if acc != &b.owner && acc != &seller && Some(acc) != bid_fee_acc.as_ref() && acc != CONTRACT {
+                    let real = flows_of_moves(&v.out.moves);
+                    let got = real.get(&(acc.clone(), b.quote_denom.clone())).copied().unwrap_or_else(Int256::zero);
+                    if got != Int256::from(*fee) {
+                        j.violate(
+                            Prop::C09,
+                            "ask-fee",
+                            &feat,
+                            format!("ask-fee account received {} where the configured rate x executed gross rounds to {}", got, fee),
+                        );
+                    }
+                    if *fee > 0 {
+                        j.label("ask-fee-checked-by-flow");
+                    }
+                }
+            }
             if v.exp.verdict == Verdict::Accept {
                 match matching_alt(v) {
                     None => j.violate(
